@@ -304,7 +304,7 @@ pub fn run(tier: Tier, seed: u64) -> i32 {
         check_inner(sub, &g, &input, l)
     });
     ctx.finish(&check_case, RULE, ASSUMPTIONS, &|l| {
-        for k in ["count_at_a_bound", "separator_before_failing_item", "accepted"] {
+        for k in ["container_collections_checked", "count_at_a_bound", "separator_before_failing_item", "accepted"] {
             if l.counters.get(k).copied().unwrap_or(0) == 0 {
                 return Err(format!("class '{}' is empty", k));
             }
